@@ -1,5 +1,6 @@
 """C20 -- the IoBox device behaves as a memory.
-Correspondence: the real IoBoxDevice (and a second one chained to its update output) is
+Correspondence: the real IoBoxDevice (and two more fed from the very list object of its update output, one
+of them with adapter writes of its own pending) is
 driven with operation sequences; results and final memories are compared, inside Coq, with
 Model/IoBox.v (`check`), about which Props/C20.v proves the property for all histories."""
 import itertools
@@ -15,8 +16,11 @@ HEADER = "From TV Require Import Base Model.IoBox."
 def run_impl(ops):
     from tickit.devices.iobox import IoBoxDevice
 
-    b1, b2 = IoBoxDevice(), IoBoxDevice()
+    # b2 and b3 are both fed from b1's update output -- the very list object b1 handed out, as the
+    # in-process bus does on a fan-out; b2 also has a pending adapter write of its own (address 99)
+    b1, b2, b3 = IoBoxDevice(), IoBoxDevice(), IoBoxDevice()
     out = []
+    shared_ok = True
     for o in ops:
         if o[0] == "W":
             b1.write(o[1], o[2])
@@ -27,12 +31,24 @@ def run_impl(ops):
             except KeyError:
                 out.append(("RR", None))
         else:
-            u = b1.update(0, {"updates": list(map(tuple, o[1]))} if o[1] is not None else {})
-            ups = list(u.outputs["updates"])
+            given = list(map(tuple, o[1])) if o[1] is not None else None
+            u = b1.update(0, {"updates": given} if given is not None else {})
+            if given is not None and given != list(map(tuple, o[1])):
+                shared_ok = False                 # the device changed the list it was given
+            handed = u.outputs["updates"]
+            ups = list(handed)
             out.append(("RU", ups))
             assert u.call_at is None
-            b2.update(0, {"updates": list(ups)})
-    return out, list(b1._memory.items()), list(b2._memory.items())
+            b2.write(99, len(out))
+            b2.update(0, {"updates": handed})
+            b3.update(0, {"updates": handed})
+            if list(handed) != ups:
+                shared_ok = False                 # a consumer changed the output it was fed from
+    m2 = [(a, v) for a, v in b2._memory.items() if a != 99]
+    m3 = list(b3._memory.items())
+    if m2 != m3 or not shared_ok:
+        m3 = m3 + [(98, -1)]                      # makes the chained-box comparison in Coq fail (code 3)
+    return out, list(b1._memory.items()), m3
 
 
 def ws(l):
